@@ -229,7 +229,10 @@ def expected_from_model(model):
                             "arches": sorted(v["arches"]), "paths": norm_paths(v),
                             "parent": None if parent == "top" else model["vars"][parent]["uid"],
                             "children": sorted(model["vars"][c]["uid"] for c in v["children"]),
-                            "release": rel}
+                            "release": rel,
+                            # the key under which its container holds it: the id (what add() files it under, and what a
+                            # lookup "from its parent by its id" relies on - for the top container as well)
+                            "key": v["id"]}
     exp["forest"] = forest
     return exp
 
@@ -260,7 +263,7 @@ def observe_ci(obj):
                 continue
             forest[v.uid] = {"id": v.id, "uid": v.uid, "name": v.name, "type": v.type,
                              "arches": sorted(v.arches), "paths": paths, "parent": parent_uid,
-                             "children": sorted(c.uid for c in v.variants.values()), "release": rel}
+                             "children": sorted(c.uid for c in v.variants.values()), "release": rel, "key": key}
             walk(v, v.uid)
     walk(obj.variants, None)
     out["forest"] = forest
@@ -806,7 +809,9 @@ class CIMachine(FormatMachine):
             # such a document can only hold what its id says: content whose date / type / respin fields differ from the id
             # is not expressible in it
             _suffix = {"production": "", "ci": ".ci", "nightly": ".n", "test": ".t", "development": ".d"}
-            if not isinstance(c.get("id"), str) or not c["id"].endswith("-%s%s.%d" % (c["date"], _suffix.get(c["type"], "?"), c["respin"])):
+            _long = {"nightly": ".nightly", "test": ".test"}
+            if not isinstance(c.get("id"), str) or not (c["id"].endswith("-%s%s.%d" % (c["date"], _suffix.get(c["type"], "?"), c["respin"])) or
+                                                        c["id"].endswith("-%s%s.%d" % (c["date"], _long.get(c["type"], "?"), c["respin"]))):
                 return "noop-fields-not-in-id"
             if _re.search(r"\d{8}", exp["release"]["version"] + (exp["base_product"] or {}).get("version", "")):
                 return "noop-version-digits"
